@@ -492,13 +492,16 @@ def _finalizer_dask_op(
     if footer_bytes:
         _root.append(footer_bytes)
 
+    # part number reserved for the header/left-over data
+    left_part_id = 1 if write is None else write.min_part
+
     if hdr_bytes:
-        hdr = MPUChunk(1, 1)
+        hdr = MPUChunk(left_part_id, 1)
         hdr.append(hdr_bytes)
         _root = MPUChunk.merge(hdr, _root)
 
     if write is None:
         return _root
 
-    _, rr = _root.flush(write, leftPartId=1, finalise=True)
+    _, rr = _root.flush(write, leftPartId=left_part_id, finalise=True)
     return rr
